@@ -52,13 +52,48 @@ def key_arg(case, keys):
     raise ValueError(how)
 
 
-def build(case, keys=None):
+WARM_OPS = ("size_masked", "sum_masked", "groups", "key_count", "median", "cumsum", "sum_transform", "head", "max_masked_pos")
+
+
+def warm_up(gb, ops_, n):
+    """Earlier calls on the same grouping object (public operations on values that do not depend on the case): they fill the
+    object's caches and may re-organise its key representation.  What the examined call returns must not depend on them."""
+    if not n:
+        return
+    i = np.arange(n)
+    for w in ops_:
+        if w == "size_masked":
+            gb.size(mask=(i % 3) != 1)
+        elif w == "sum_masked":
+            gb.sum(i.astype(float), mask=(i % 2) == 0)
+        elif w == "max_masked_pos":
+            gb.max(i.astype(float), mask=np.array([n - 1, 0], dtype=np.int64))
+        elif w == "groups":
+            gb.groups
+        elif w == "key_count":
+            gb.key_count
+        elif w == "median":
+            gb.median(np.zeros(n))
+        elif w == "cumsum":
+            gb.cumsum(np.zeros(n))
+        elif w == "sum_transform":
+            gb.sum(np.zeros(n), transform=True)
+        elif w == "head":
+            gb.head(i, 1, keep_input_index=True)
+        else:
+            raise ValueError(w)
+
+
+def build(case, keys=None, warm=True):
     if keys is None:
         keys = render(case)[0]
     kw = {}
     if "sort" in case:
         kw["sort"] = case["sort"]
-    return GroupBy(key_arg(case, keys), **kw)
+    gb = GroupBy(key_arg(case, keys), **kw)
+    if warm and case.get("warm"):
+        warm_up(gb, case["warm"], case["n"])
+    return gb
 
 
 def call(gb, op, values, mask=None, **kw):
